@@ -28,14 +28,21 @@ pub enum Src {
     IntEqLong(i64, u32),
     BinPrefix(u8),
     Timeout(u64),
-    /// `#('int | 'bin)` (the drain source)
+    /// `#('int | 'bin | ['int, 'int])` (the drain source)
     Any,
+    /// `#['int, 'int]` type-only
+    Pair,
+    /// `&__integer_add__`: a builtin is body-less, it only names the message type ['int, 'int]
+    BuiltinPair,
+    /// `#('int | 'bin)`: overlaps with the int and bin sources
+    IntOrBin,
 }
 
 #[derive(Clone, Debug, PartialEq, Serialize, Deserialize)]
 pub enum Msg {
     Int(i64),
     Bin(Vec<u8>),
+    Pair(i64, i64),
     Other(String),
 }
 
@@ -44,6 +51,7 @@ impl Msg {
         match self {
             Msg::Int(i) => i.to_string(),
             Msg::Bin(b) => format!("0x{}", crate::canon::hex(b)),
+            Msg::Pair(a, b) => format!("[{a}, {b}]"),
             Msg::Other(s) => s.clone(),
         }
     }
@@ -60,12 +68,17 @@ impl Src {
             Src::IntEqLong(k, s) => format!("#'int {{ =m, w = [{s}, 0] spin, m ={k} }}"),
             Src::BinPrefix(p) => format!("#'bin {{ =m, [m, 0, 1] __binary_slice__ =0x{:02x} }}", p),
             Src::Timeout(d) => d.to_string(),
-            Src::Any => "#('int | 'bin)".into(),
+            Src::Any => "#('int | 'bin | ['int, 'int])".into(),
+            Src::Pair => "#['int, 'int]".into(),
+            Src::BuiltinPair => "&__integer_add__".into(),
+            Src::IntOrBin => "#('int | 'bin)".into(),
         }
     }
     fn accepts(&self, m: &Msg) -> bool {
         match (self, m) {
-            (Src::Any, Msg::Int(_) | Msg::Bin(_)) => true,
+            (Src::Any, Msg::Int(_) | Msg::Bin(_) | Msg::Pair(..)) => true,
+            (Src::Pair | Src::BuiltinPair, Msg::Pair(..)) => true,
+            (Src::IntOrBin, Msg::Int(_) | Msg::Bin(_)) => true,
             (Src::Int, Msg::Int(_)) => true,
             (Src::Bin, Msg::Bin(_)) => true,
             (Src::IntEq(k), Msg::Int(i)) | (Src::IntEqLong(k, _), Msg::Int(i)) => i == k,
@@ -99,6 +112,8 @@ pub struct Expect {
 #[derive(Clone, Debug)]
 enum Act {
     Send(Msg),
+    /// sent by a helper process instead of the main line (a second sender)
+    SendVia(Msg),
     Go(usize),
     Sleep(u64),
     Spin(u32),
@@ -179,7 +194,7 @@ impl Property for C05 {
                 continue;
             }
             for _ in 0..n {
-                let s = match rng.below(12) {
+                let s = match rng.below(13) {
                     0..=2 if nchildren > 0 => Src::Proc(rng.usize(nchildren)),
                     0..=2 => Src::Int,
                     3 => Src::Int,
@@ -203,6 +218,11 @@ impl Property for C05 {
                         prefixes.push(p);
                         Src::BinPrefix(p)
                     }
+                    10 => match rng.below(3) {
+                        0 => Src::Pair,
+                        1 => Src::BuiltinPair,
+                        _ => Src::IntOrBin,
+                    },
                     _ => Src::Timeout(*rng.pick(&[0u64, 0, 5, 20, 60, 150])),
                 };
                 if !srcs.contains(&s) {
@@ -220,7 +240,9 @@ impl Property for C05 {
         let nmsgs = 1 + rng.usize(6);
         let mut used: Vec<Msg> = Vec::new();
         for _ in 0..nmsgs {
-            let m = if rng.chance(2, 3) {
+            let m = if rng.chance(1, 6) {
+                Msg::Pair(rng.range(1, 9) as i64, 100 + used.len() as i64)
+            } else if rng.chance(2, 3) {
                 // ints: bias towards values the filters look for
                 let v = if !interesting_ints.is_empty() && rng.chance(1, 2) { *rng.pick(&interesting_ints) } else { rng.range(1, 20) as i64 };
                 Msg::Int(v)
@@ -244,7 +266,11 @@ impl Property for C05 {
                 o => o,
             };
             used.push(m.clone());
-            acts.push(Act::Send(m));
+            if rng.chance(1, 5) {
+                acts.push(Act::SendVia(m));
+            } else {
+                acts.push(Act::Send(m));
+            }
         }
         for (i, c) in children.iter().enumerate() {
             if !c.immediate && (await_race || rng.chance(3, 4)) {
@@ -274,6 +300,9 @@ impl Property for C05 {
         defs.push("chf = #'int { =c, g = !'int, [g, 0] __integer_divide__ }".into());
         defs.push("chi = #'int { =c, [c, 1] __integer_add__ }".into());
         defs.push("chif = #'int { =c, [c, 0] __integer_divide__ }".into());
+        defs.push("sndi = #[(@('int | 'bin | ['int, 'int])), 'int] { =[to, m], m to }".into());
+        defs.push("sndb = #[(@('int | 'bin | ['int, 'int])), 'bin] { =[to, m], m to }".into());
+        defs.push("sndp = #[(@('int | 'bin | ['int, 'int])), ['int, 'int]] { =[to, m], m to }".into());
         let param = match nchildren {
             0 => "#".to_string(),
             1 => "#(@-> 'int) ".to_string(),
@@ -289,7 +318,7 @@ impl Property for C05 {
             body.push(format!("y{k} = ! [{}]", srcs.iter().map(|s| s.render()).collect::<Vec<_>>().join(", ")));
         }
         for d in 0..ndrain {
-            body.push(format!("d{d} = ! [#('int | 'bin), 0]"));
+            body.push(format!("d{d} = ! [#('int | 'bin | ['int, 'int]), 0]"));
         }
         let mut outs: Vec<String> = (0..nsel).map(|k| format!("y{k}")).collect();
         outs.extend((0..ndrain).map(|d| format!("d{d}")));
@@ -324,6 +353,14 @@ impl Property for C05 {
         for (ai, a) in acts.iter().enumerate() {
             match a {
                 Act::Send(m) => main.push(format!("{} s", m.canon())),
+                Act::SendVia(m) => {
+                    let f = match m {
+                        Msg::Int(_) => "sndi",
+                        Msg::Bin(_) => "sndb",
+                        _ => "sndp",
+                    };
+                    main.push(format!("h{ai} = [&s, {}] @{f}", m.canon()));
+                }
                 Act::Go(i) => main.push(format!("1 c{i}")),
                 Act::Sleep(ms) => {
                     timing = true;
@@ -387,7 +424,12 @@ pub struct SelMonitor {
     /// select index -> tau lower bound of when it was entered
     enter_tau: BTreeMap<usize, u64>,
     /// child index -> (worker, own-turn number, failed, canonical value)
-    finished: BTreeMap<usize, (usize, u32, bool, String)>,
+    finished: BTreeMap<usize, (usize, u64, bool, String)>,
+    /// child index -> steps at which the child's worker drained a QueryAndAwait from the subject naming it
+    queries: BTreeMap<usize, Vec<u64>>,
+    /// select index -> step of the turn in which the previous select completed (lower bound of its start)
+    enter_step: BTreeMap<usize, u64>,
+    inner: super::c04::MsgMonitor,
     probes: BTreeMap<String, u64>,
     select_pcs: Vec<usize>,
     turns_in_select: BTreeMap<usize, u32>,
@@ -410,6 +452,13 @@ fn msg_of(v: &Value, heap: Option<&[Vec<u8>]>, ex: Option<&quiver_core::executor
             Some(quiver_core::bytecode::Constant::Binary(b)) => Msg::Bin(b.clone()),
             _ => Msg::Other("const?".into()),
         },
+        Value::Tuple(_, fs) if fs.len() == 2 => match (&fs[0], &fs[1]) {
+            (Value::Integer(a), Value::Integer(b)) => match (a.to_i64(), b.to_i64()) {
+                (Some(a), Some(b)) => Msg::Pair(a, b),
+                _ => Msg::Other(format!("{:?}", v)),
+            },
+            _ => Msg::Other(format!("{:?}", v)),
+        },
         other => Msg::Other(format!("{:?}", other)),
     }
 }
@@ -428,6 +477,9 @@ impl SelMonitor {
             start_time: BTreeMap::new(),
             enter_tau: BTreeMap::new(),
             finished: BTreeMap::new(),
+            queries: BTreeMap::new(),
+            enter_step: BTreeMap::new(),
+            inner: super::c04::MsgMonitor::new_without_fifo("C05"),
             probes: BTreeMap::new(),
             select_pcs: Vec::new(),
             turns_in_select: BTreeMap::new(),
@@ -473,9 +525,14 @@ impl SelMonitor {
 }
 
 impl Monitor for SelMonitor {
-    fn after(&mut self, world: &World, _client: &Client, _d: &Decision, out: &StepOutcome) -> Option<Violation> {
+    fn after(&mut self, world: &World, client: &Client, d: &Decision, out: &StepOutcome) -> Option<Violation> {
         if world.dead {
             return None;
+        }
+        // conservation of messages, spawn notifications and lost completions (C04's monitors, no
+        // sender encoding assumed)
+        if let Some(v) = self.inner.after(world, client, d, out) {
+            return Some(v);
         }
         self.resolve(world);
         if out.actor == 0 || out.actor == usize::MAX {
@@ -483,6 +540,21 @@ impl Monitor for SelMonitor {
         }
         let wi = out.actor - 1;
         let program = world.env.get_program();
+        // queries from the subject drained by this worker in this turn
+        if let Some((spid, _)) = self.subject {
+            let sh = world.sh.lock().unwrap();
+            for id in &sh.cur_recv {
+                if let Some(Command::QueryAndAwait { awaiter, targets }) = sh.cmd(*id)
+                    && *awaiter == spid
+                {
+                    for t in targets {
+                        if let Some(ci) = self.child_pids.iter().position(|p| *p == Some(*t)) {
+                            self.queries.entry(ci).or_default().push(world.steps);
+                        }
+                    }
+                }
+            }
+        }
         // children that finished in this turn
         for i in 0..self.child_pids.len() {
             if self.finished.contains_key(&i) {
@@ -497,11 +569,14 @@ impl Monitor for SelMonitor {
             if let Some(p) = ex.get_process(pid)
                 && let Some(r) = &p.result
             {
-                let own = world.sh.lock().unwrap().vcs[1 + w][1 + w];
+                let own = world.steps;
                 let (failed, val) = match r {
                     Ok(v) => (false, msg_of(v, None, Some(ex), program).canon()),
                     Err(e) => (true, format!("{:?}", e)),
                 };
+                if std::env::var("QSIM_DEBUG").is_ok() {
+                    eprintln!("child {i} pid {pid} finished at step {} own turn {own} of worker {w}", world.steps);
+                }
                 self.finished.insert(i, (w, own, failed, val));
             }
         }
@@ -582,6 +657,7 @@ impl Monitor for SelMonitor {
         // enter bound for newly started selects
         for k in self.last_completed..=completed.min(self.total_selects().saturating_sub(1)) {
             self.enter_tau.entry(k).or_insert(world.tau);
+            self.enter_step.entry(k).or_insert(world.steps);
         }
         if !self.enter_tau.contains_key(&0) {
             self.enter_tau.insert(0, world.tau);
@@ -668,6 +744,12 @@ impl Monitor for SelMonitor {
         }
         let turns = self.turns.clone();
         let nsel = self.e.selects.len();
+        if std::env::var("QSIM_DEBUG").is_ok() {
+            eprintln!("finished={:?}", self.finished);
+            for t in &turns {
+                eprintln!("turn step={} c={}..{} vc={:?} known={:?} incomplete={} entered={}", t.step, t.c_before, t.c_after, t.vc, t.known, t.exchange_incomplete, t.entered_this_turn);
+            }
+        }
         for tr in &turns {
             let mut mailbox = tr.mailbox_at_slice_start.clone();
             for k in tr.c_before..tr.c_after {
@@ -683,7 +765,7 @@ impl Monitor for SelMonitor {
                             tr.tau.saturating_sub(enter) >= *d
                         }
                         (Src::Proc(ci), yv) => self.finished.get(ci).is_some_and(|(_, _, failed, val)| !*failed && *val == yv.canon()),
-                        (s, m @ (Msg::Int(_) | Msg::Bin(_))) if s.is_receive() => s.accepts(m) && mailbox.contains(m),
+                        (s, m @ (Msg::Int(_) | Msg::Bin(_) | Msg::Pair(..))) if s.is_receive() => s.accepts(m) && mailbox.contains(m),
                         _ => false,
                     };
                     if hit {
@@ -696,8 +778,8 @@ impl Monitor for SelMonitor {
                     let cause = match &y {
                         Msg::Other(n) if n == "[]" && srcs.iter().any(|s| matches!(s, Src::Timeout(_))) => "timeout-fired-early",
                         Msg::Other(n) if n == "[]" => "nil-without-timeout-source",
-                        Msg::Int(_) | Msg::Bin(_) if !mailbox.contains(&y) && srcs.iter().any(|s| s.is_receive() && s.accepts(&y)) => "message-not-in-mailbox",
-                        Msg::Int(_) | Msg::Bin(_) if mailbox.contains(&y) => "filter-verdict",
+                        Msg::Int(_) | Msg::Bin(_) | Msg::Pair(..) if !mailbox.contains(&y) && srcs.iter().any(|s| s.is_receive() && s.accepts(&y)) => "message-not-in-mailbox",
+                        Msg::Int(_) | Msg::Bin(_) | Msg::Pair(..) if mailbox.contains(&y) => "filter-verdict",
                         _ => "unexplained",
                     };
                     v.push(Violation::new("C05", "yield", cause, format!("select {k} {:?} yielded {} but no listed source could have produced it (mailbox at that moment: {:?})", srcs.iter().map(|s| s.render()).collect::<Vec<_>>(), y.canon(), mailbox.iter().map(|m| m.canon()).collect::<Vec<_>>()), tr.step));
@@ -747,20 +829,31 @@ impl Monitor for SelMonitor {
                             }
                         }
                         Src::Proc(ci) => {
-                            if let Some((aw, n, failed, _)) = self.finished.get(ci).cloned() {
+                            if let Some((aw, fstep, failed, _)) = self.finished.get(ci).cloned() {
                                 let known = tr.known.get(ci).copied().unwrap_or(false);
-                                let causally = if aw == sw { tr.vc[1 + aw] > n } else { tr.vc[1 + aw] > n };
-                                if known || causally {
+                                // A correct implementation evaluates a select only after the initial snapshot of
+                                // its listed processes has returned. That snapshot contains p's result if p had
+                                // finished before its worker handled this select's query; if no query had been
+                                // handled yet, p's result is certainly in the snapshot to come if p finished
+                                // before the select was even entered. (A completion *after* the query travels as
+                                // a separate notification and may legitimately still be in flight.)
+                                let entered = self.enter_step.get(&k).copied().unwrap_or(0);
+                                let query = self.queries.get(ci).and_then(|q| q.iter().rev().find(|s| **s >= entered && **s <= tr.step).copied());
+                                let in_snapshot = match query {
+                                    Some(q) => fstep < q,
+                                    None => fstep < entered,
+                                };
+                                if known || in_snapshot {
                                     let cause = if failed {
                                         "failed-process-ignored"
-                                    } else if tr.exchange_incomplete || tr.entered_this_turn {
-                                        "eval-before-await-snapshot"
                                     } else if known {
                                         "known-result-ignored"
+                                    } else if query.is_none() || tr.exchange_incomplete {
+                                        "eval-before-await-snapshot"
                                     } else {
                                         "completion-lost"
                                     };
-                                    v.push(Violation::new("C05", "priority", cause, format!("select {k} {:?} yielded {} from source {j} although earlier-written source {i} (process p{ci}) had finished in turn {n} of worker {aw} and the subject's worker had causal knowledge of that turn (vc {:?}); known-to-worker={known} exchange_incomplete={}", srcs.iter().map(|s| s.render()).collect::<Vec<_>>(), y.canon(), tr.vc, tr.exchange_incomplete), tr.step));
+                                    v.push(Violation::new("C05", "priority", cause, format!("select {k} {:?} yielded {} from source {j} although earlier-written source {i} (process p{ci} on worker {aw}) had finished at step {fstep}, before {} (select entered at step >= {entered}, completed at step {}); known-to-worker={known} exchange_incomplete={}", srcs.iter().map(|s| s.render()).collect::<Vec<_>>(), y.canon(), match query { Some(q) => format!("its worker answered this select's query at step {q}"), None => "the select was entered".to_string() }, tr.step, tr.exchange_incomplete), tr.step));
                                     return v;
                                 }
                             }
@@ -792,7 +885,7 @@ impl Monitor for SelMonitor {
                     self.probe("message_arrived_between_reentries");
                 }
                 // the taken message leaves the mailbox, the rest keeps its order
-                if let m @ (Msg::Int(_) | Msg::Bin(_)) = &y
+                if let m @ (Msg::Int(_) | Msg::Bin(_) | Msg::Pair(..)) = &y
                     && srcs[j].is_receive()
                     && let Some(pos) = mailbox.iter().position(|x| x == m)
                 {
@@ -827,6 +920,10 @@ impl Monitor for SelMonitor {
     }
 
     fn probes(&self) -> BTreeMap<String, u64> {
-        self.probes.clone()
+        let mut p = self.probes.clone();
+        for (k, v) in self.inner.probes() {
+            *p.entry(k).or_insert(0) += v;
+        }
+        p
     }
 }
